@@ -1,7 +1,7 @@
 (* C01 - Table scan returns exactly the table's rows, values and order.
    Property theorems only; proofs are in Proofs/. *)
-From SQ Require Import Model.Base Model.Record Model.Btree Model.Low
-     Spec.Flat Spec.Deliver Proofs.BtreeP Proofs.LowP Proofs.ScanP.
+From SQ Require Import Model.Base Model.Record Model.Btree Model.Low Model.High
+     Spec.Flat Spec.Deliver Proofs.BtreeP Proofs.LowP Proofs.ScanP Proofs.HighP.
 
 (* the table traversal, generic in the tree: every tree shape and depth the
    code accepts, every callback *)
@@ -21,3 +21,42 @@ Theorem C01_scan_all : forall pg op npages root l,
   table_scan pg op npages _ root (tcollect None) [] = (Continue, rev l).
 Proof. exact table_scan_all. Qed.
 Print Assumptions C01_scan_all.
+
+(* the high level Select (select.go, sqlite.go: Model/High.v): once sqlite_master is read and the
+   column list resolved, it delivers the row mapping of every stored row of the table's tree, in
+   tree order, each once - rowid tables from the table tree, WITHOUT ROWID tables from the
+   primary key index tree *)
+Theorem C01_select : forall pg op npages S cb sc ms table columns, master pg op npages = (Continue, ms) ->
+  forall ci root s, s_worowid sc = false -> to_ci_rowid sc columns = Ok ci -> find_root ms name_table table = Ok root ->
+  h_select pg op npages S cb sc table columns s
+  = run_flat (fun x s => cb (to_row (fst x) ci (snd x)) s) (table_rows pg op npages root) s.
+Proof. exact select_rowid_table. Qed.
+Print Assumptions C01_select.
+
+Theorem C01_select_without_rowid : forall pg op npages S cb sc ms table columns, master pg op npages = (Continue, ms) ->
+  forall ci root s, s_worowid sc = true -> to_ci_nonrowid sc columns = Ok ci -> find_root ms name_table table = Ok root ->
+  h_select pg op npages S cb sc table columns s
+  = run_flat (fun r s => cb (to_row 0 ci r) s) (index_rows pg op npages root) s.
+Proof. exact select_norowid_table. Qed.
+Print Assumptions C01_select_without_rowid.
+
+Theorem C01_select_all : forall pg op npages sc ms table columns ci root l,
+  master pg op npages = (Continue, ms) -> s_worowid sc = false ->
+  to_ci_rowid sc columns = Ok ci -> find_root ms name_table table = Ok root ->
+  table_rows pg op npages root = (l, None) ->
+  h_select pg op npages _ (collect_hrow None) sc table columns [] = (Continue, rev (map (fun x => to_row (fst x) ci (snd x)) l)).
+Proof. exact select_collects. Qed.
+Print Assumptions C01_select_all.
+
+(* the row mapping, column by column: the rowid for a rowid (alias) column; otherwise the stored
+   value at the column's position, or the column's DEFAULT when the stored record is shorter
+   (the row was written before the column was added) *)
+Theorem C01_row_mapping : forall rowid cis r i,
+  nth_error (to_row rowid cis r) i =
+  match nth_error cis i with
+  | Some CRowid => Some (VInt rowid)
+  | Some (CCol pos dflt) => Some (if Z.of_nat (length r) <=? pos then dflt else nth (Z.to_nat pos) r VNull)
+  | None => None
+  end.
+Proof. exact to_row_nth. Qed.
+Print Assumptions C01_row_mapping.
